@@ -65,9 +65,16 @@ def explore(ctx, depth):
     combos = []
     incs = [None, [TC.CORE, TC.SIGNATURES, TC.BARLINES, TC.STRUCTURAL], [TC.NOTE_REST, TC.BARLINES, TC.STRUCTURAL], None]
     excs = [None, [TC.DECORATION], [TC.DURATION], [TC.SIGNATURES, TC.LYRICS]]
+    parts = [TC.DURATION, TC.PITCH, TC.ALTERATION, TC.DECORATION, TC.REST]
     for enc in ['kern', 'ekern', 'bkern', 'bekern', 'akern', 'aekern']:
         for _ in range(2 if depth == 'quick' else 4):
             combos.append({'enc': enc, 'include': rng.choice(incs), 'exclude': rng.choice(excs)})
+        # every encoding also with filters on the sub-parts of notes (each sub-part category dropped alone at least sometimes)
+        for _ in range(3 if depth == 'quick' else 8):
+            exc = rng.sample(parts, rng.randint(1, 2)) + (rng.sample(cats, rng.randint(0, 2)) if rng.random() < 0.4 else [])
+            inc = None if rng.random() < 0.6 else rng.sample(cats, rng.randint(3, 10)) + [TC.NOTE_REST]
+            combos.append({'enc': enc, 'include': inc, 'exclude': exc})
+        combos.append({'enc': enc, 'include': None, 'exclude': [rng.choice(parts)]})
 
     def sels(case):
         hs = case.adoc['headers']
